@@ -105,6 +105,16 @@ func (p *FP) Fold(v structform.ExtVisitor) error {
 	return e.err
 }
 
+// FPN: Folder on the pointer receiver whose nil receiver MEANS something (not null).
+type FPN struct{ A int }
+
+func (p *FPN) Fold(v structform.ExtVisitor) error {
+	if p == nil {
+		return v.OnString("unlimited")
+	}
+	return v.OnInt(p.A)
+}
+
 // FS: Folder (value receiver) on a named int that emits a scalar, no object.
 type FS int
 
@@ -369,7 +379,7 @@ type MenagerieEntry struct {
 }
 
 var Menagerie = []MenagerieEntry{
-	{"FV", reflect.TypeOf(FV{})}, {"FP", reflect.TypeOf(FP{})}, {"FS", reflect.TypeOf(FS(0))},
+	{"FV", reflect.TypeOf(FV{})}, {"FP", reflect.TypeOf(FP{})}, {"FPN", reflect.TypeOf(FPN{})}, {"FS", reflect.TypeOf(FS(0))},
 	{"FInts", reflect.TypeOf(FInts(nil))}, {"FMap", reflect.TypeOf(FMap(nil))},
 	{"FOpen", reflect.TypeOf(FOpen{})},
 	{"ZV", reflect.TypeOf(ZV{})}, {"ZP", reflect.TypeOf(ZP{})}, {"ZInt", reflect.TypeOf(ZInt(0))},
